@@ -1,7 +1,7 @@
 (* Properties_C09.v — property C09: every policy is a coherent probability distribution over
    actions.  Only statements, each closed by [exact <lemma>] and followed by Print Assumptions. *)
-From Coq Require Import List Arith ZArith QArith Qminmax Bool Lia.
-From AIT Require Import Base.Qx C09.Model C09.Spec C09.ProofsGreedy C09.ProofsMix C09.ProofsSoftmax C09.ProofsWolf C09.ProofsPga.
+From Coq Require Import List Arith ZArith QArith Qminmax Bool Lia Lqa.
+From AIT Require Import Base.Qx C09.Model C09.Spec C09.ProofsGreedy C09.ProofsMix C09.ProofsSoftmax C09.ProofsWolf C09.ProofsPga C09.Machines C09.ProofsMachines C09.ProofsEsrl C09.ProofsSr C09.ProofsT3c.
 Import ListNotations.
 Local Open Scope Q_scope.
 
@@ -68,11 +68,46 @@ Theorem sample_prob_in_support : forall l p, is_dist l -> 0 <= p -> p < 1 -> in_
 Proof. exact sample_prob_in_support_lemma. Qed.
 Print Assumptions sample_prob_in_support.
 
-Theorem lrp_simplex_invariant : forall A a b ops, (2 <= A)%nat -> 0 <= a -> a <= 1 -> 0 <= b -> b <= 1 ->
+(* histories of updates only (round 1 statement, kept) *)
+Theorem lrp_simplex_invariant_updates : forall A a b ops, (2 <= A)%nat -> 0 <= a -> a <= 1 -> 0 <= b -> b <= 1 ->
   Forall (fun op => (fst op < A)%nat) ops ->
   length (lrp_pol (lrp_run A a b ops)) = A /\ is_dist (lrp_pol (lrp_run A a b ops)).
 Proof. exact lrp_simplex_invariant_lemma. Qed.
+Print Assumptions lrp_simplex_invariant_updates.
+
+(* histories that interleave stepUpdateP with setAParam / setBParam (values in [0,1]; a single arm
+   only with b = 0): the policy stays a probability vector and the getters stay in [0,1] *)
+Theorem lrp_simplex_invariant : forall A a b ops, (1 <= A)%nat ->
+  0 <= a -> a <= 1 -> 0 <= b -> b <= 1 -> (A = 1%nat -> b == 0) -> Forall (lrp_op_ok A) ops ->
+  length (lrp_pol (lrp_exec A a b ops)) = A /\ is_dist (lrp_pol (lrp_exec A a b ops)) /\
+  0 <= lrp_getA (lrp_exec A a b ops) /\ lrp_getA (lrp_exec A a b ops) <= 1 /\
+  0 <= lrp_getB (lrp_exec A a b ops) /\ lrp_getB (lrp_exec A a b ops) <= 1.
+Proof. exact lrp_simplex_invariant_setters_lemma. Qed.
 Print Assumptions lrp_simplex_invariant.
+
+(* after ANY history, an update applies the documented reward / penalty rule with the parameters
+   last set (cur_a, cur_b), and the getters return them: no cached quantity can be stale *)
+Theorem lrp_documented_rule : forall A a b ops act res,
+  veq (lrp_pol (lrp_apply (lrp_exec A a b ops) (LUpd act res)))
+      (lrp_rule (cur_a a ops) (cur_b b ops) (lrp_pol (lrp_exec A a b ops)) act res) /\
+  lrp_getA (lrp_exec A a b ops) == cur_a a ops /\ lrp_getB (lrp_exec A a b ops) == cur_b b ops.
+Proof. exact lrp_documented_rule_lemma. Qed.
+Print Assumptions lrp_documented_rule.
+
+(* setEpsilon: accepted iff in [0,1] (else throws and keeps the old value); after any list of calls
+   the mixture is still a distribution whose table equals the queries *)
+Theorem epsilon_set_spec : forall cur e,
+  (0 <= e /\ e <= 1 -> eps_set_throws e = false /\ eps_set cur e = e) /\
+  (e < 0 \/ 1 < e -> eps_set_throws e = true /\ eps_set cur e = cur).
+Proof. exact eps_set_spec. Qed.
+Print Assumptions epsilon_set_spec.
+
+Theorem epsilon_setters : forall e0 sets pol, 0 <= e0 -> e0 <= 1 -> pol <> [] -> is_dist pol ->
+  let eps := fold_left eps_set sets e0 in
+  0 <= eps /\ eps <= 1 /\ length (eps_policy eps pol) = length pol /\ is_dist (eps_policy eps pol) /\
+  agrees (eps_policy eps pol) (fun a => eps_prob eps (length pol) (nthq pol a)).
+Proof. exact epsilon_setters_lemma. Qed.
+Print Assumptions epsilon_setters.
 
 (* ------------------------------------------------------------------ QSoftmaxPolicyWrapper *)
 (* about the code repaired by fixes/C09-softmax-underflow.patch; [ex] is std::exp, assumed only to
@@ -109,6 +144,20 @@ Theorem softmax_asis_table_eq_query_refuted :
 Proof. exact softmax_asis_refuted_thm. Qed.
 Print Assumptions softmax_asis_table_eq_query_refuted.
 
+(* setTemperature: accepted iff >= 0; after any list of calls the policy is a distribution, table = queries *)
+Theorem softmax_temperature_set_spec : forall cur t,
+  (0 <= t -> temp_set_throws t = false /\ temp_set cur t = t) /\
+  (t < 0 -> temp_set_throws t = true /\ temp_set cur t = cur).
+Proof. exact temp_set_spec. Qed.
+Print Assumptions softmax_temperature_set_spec.
+
+Theorem softmax_setters : forall ex, exp_like ex -> forall t0 sets q, 0 <= t0 -> q <> [] -> separated q ->
+  let T := fold_left temp_set sets t0 in
+  0 <= T /\ length (softmax_policy ex T q) = length q /\ is_dist (softmax_policy ex T q) /\
+  agrees (softmax_policy ex T q) (softmax_prob ex T q).
+Proof. exact softmax_setters_thm. Qed.
+Print Assumptions softmax_setters.
+
 (* ------------------------------------------------------------------ ThompsonSamplingPolicy *)
 (* about the code repaired by fixes/C09-thompson-lowest.patch *)
 
@@ -124,6 +173,30 @@ Theorem thompson_unexplored_first : forall pre c v post,
 Proof. exact thompson_unexplored_lemma. Qed.
 Print Assumptions thompson_unexplored_first.
 
+(* TopTwoThompsonSamplingPolicy::sampleAction, deterministic part ([first] = first Thompson draw,
+   [pick] = the Bernoulli(beta) outcome, [stream] = the following Thompson draws): the result is the
+   first draw, or — only when the coin failed and the first arm has >= 2 pulls — a later draw that differs *)
+Theorem toptwo_result : forall counts first pick stream r,
+  toptwo_sample counts first pick stream = Some r ->
+  r = first \/ (In r stream /\ r <> first /\ pick = false /\ (2 <= nth first counts 0)%nat).
+Proof. exact toptwo_result_lemma. Qed.
+Print Assumptions toptwo_result.
+
+(* T3CPolicy::sampleAction, deterministic part ([first] = Thompson leader, [pick] = Bernoulli(beta),
+   [us] = the uniform draws of the tie-breaking Bernoulli(1/k)): the result is in range and is either
+   the leader or — only when the coin failed and the leader has >= 2 pulls — a different arm whose
+   transportation cost is minimal among all other arms *)
+Theorem t3c_result : forall means counts var first pick us,
+  (2 <= length means)%nat -> (first < length means)%nat -> (length means <= length us)%nat ->
+  let r := t3c_sample means counts var first pick us in
+  (r < length means)%nat /\
+  (r = first \/
+   (r <> first /\ pick = false /\ (2 <= nth first counts 0)%nat /\
+    forall a, (a < length means)%nat -> a <> first ->
+              t3c_cost means counts var first r <= t3c_cost means counts var first a)).
+Proof. exact t3c_result_lemma. Qed.
+Print Assumptions t3c_result.
+
 (* the code as it is: the running maximum starts at the smallest positive double *)
 Theorem thompson_argmax_asis_refuted :
   exists arms, Forall (fun p => (2 <= fst p)%nat) arms /\
@@ -134,17 +207,83 @@ Print Assumptions thompson_argmax_asis_refuted.
 (* ------------------------------------------------------------------ WoLFPolicy *)
 (* every history of stepUpdateP calls (any states, any tie-breaking draws) leaves every row of the
    actual and of the average policy a probability vector *)
-Theorem wolf_rows_dist : forall dW dL scaling qm A ops,
+Theorem wolf_rows_dist_updates : forall dW dL scaling qm A ops,
   (2 <= A)%nat -> 0 <= dW -> 0 <= dL -> 0 < scaling -> Forall (fun r => length r = A) qm ->
   length (wolf_run dW dL scaling qm A ops) = length qm /\
   Forall (fun r => length (w_act r) = A /\ is_dist (w_act r) /\ length (w_avg r) = A /\ is_dist (w_avg r))
          (wolf_run dW dL scaling qm A ops).
 Proof. exact wolf_rows_dist_lemma. Qed.
+Print Assumptions wolf_rows_dist_updates.
+
+(* the same over histories that interleave stepUpdateP with setDeltaW / setDeltaL / setScaling
+   (deltas >= 0, scaling > 0) *)
+Theorem wolf_rows_dist : forall dW dL sc qm A ops,
+  (2 <= A)%nat -> 0 <= dW -> 0 <= dL -> 0 < sc -> Forall (fun r => length r = A) qm ->
+  Forall wolf_op_ok ops ->
+  length (ws_rows (wolf_exec dW dL sc qm A ops)) = length qm /\
+  Forall (fun r => length (w_act r) = A /\ is_dist (w_act r) /\ length (w_avg r) = A /\ is_dist (w_avg r))
+         (ws_rows (wolf_exec dW dL sc qm A ops)).
+Proof. exact wolf_rows_dist_setters_lemma. Qed.
 Print Assumptions wolf_rows_dist.
 
 Example ex_wolf_nonvacuous :
   forallb (fun r => is_distb (w_act r)) (wolf_run (1#8) (1#2) 4 [[1; -2; 1]; [0; 3; -1]] 3 [(0%nat, 1%nat); (1%nat, 0%nat); (0%nat, 0%nat)]) = true.
 Proof. vm_compute. reflexivity. Qed.
+
+(* ------------------------------------------------------------------ ESRLPolicy *)
+(* the whole phase machine (exploration phases over a shrinking set of allowed actions with an
+   embedded LRI automaton, re-initialised at every phase end; final exploitation) and its four setters:
+   after EVERY history the table is a probability vector of length A, equals the per-action queries,
+   and sampleAction (draw u explicit) returns an in-range action of positive probability *)
+Theorem esrl_rows_dist : forall A a N phases window ops, (1 <= A)%nat -> 0 <= a -> a <= 1 ->
+  Forall esrl_op_ok ops ->
+  let st := esrl_exec A a N phases window ops in
+  length (esrl_policy st) = A /\ is_dist (esrl_policy st) /\
+  (forall x, nthq (esrl_policy st) x == esrl_prob st x) /\
+  (forall u, 0 <= u -> u < 1 -> in_support (esrl_policy st) (esrl_sample st u)).
+Proof. exact esrl_rows_dist_lemma. Qed.
+Print Assumptions esrl_rows_dist.
+
+Example ex_esrl_nonvacuous :
+  let st := esrl_exec 3 (1#2) 2 2 2 [EUpd 0 true; EUpd 1 false; ESetA (1#4); EUpd 2 true; EUpd 2 true; EUpd 0 true] in
+  e_exploit st = true /\ is_distb (esrl_policy st) = true /\
+  e_allowed (esrl_exec 3 (1#2) 2 2 2 [EUpd 0 true; EUpd 1 false]) = [2%nat; 1%nat].
+Proof. vm_compute. repeat split. Qed.
+
+(* ------------------------------------------------------------------ SuccessiveRejectsPolicy *)
+(* [hist] = the reward means read by each stepUpdateQ call.  After every history: the arm to pull is an
+   available in-range arm and the table is its indicator (a distribution, = the queries); while phases
+   last there are A + 1 - phase arms left and nKNew / nKOld are the documented n_k / n_{k-1} *)
+Theorem sr_safety : forall A budget hist, (1 <= A)%nat ->
+  let st := sr_run A budget hist in
+  In (sr_sample st) (sr_avail st) /\ (sr_sample st < A)%nat /\ NoDup (sr_avail st) /\
+  length (sr_policy st) = A /\ is_dist (sr_policy st) /\
+  (forall a, nthq (sr_policy st) a == sr_prob st a) /\ in_support (sr_policy st) (sr_sample st) /\
+  ((sr_phase st <= A)%nat -> (length (sr_avail st) + sr_phase st = A + 1)%nat /\
+                       sr_new st = sr_nk A budget (sr_phase st) /\ sr_old st = nk0 A budget (sr_phase st - 1)) /\
+  ((A < sr_phase st)%nat -> length (sr_avail st) = 1%nat).
+Proof. exact sr_safety_lemma. Qed.
+Print Assumptions sr_safety.
+
+(* rejected arms are never pulled again *)
+Theorem sr_rejected_never_again : forall A budget h1 h2, (1 <= A)%nat ->
+  incl (sr_avail (sr_run A budget (h1 ++ h2))) (sr_avail (sr_run A budget h1)) /\
+  In (sr_sample (sr_run A budget (h1 ++ h2))) (sr_avail (sr_run A budget h1)).
+Proof. exact sr_rejected_never_again_lemma. Qed.
+Print Assumptions sr_rejected_never_again.
+
+(* every arm but one is eventually rejected: after sr_total A budget calls — a number that depends on
+   A and the budget only (sum over phases k of (A+1-k) * max 1 (n_k - n_{k-1})) — whatever the rewards *)
+Theorem sr_eventually_one : forall A budget hist, (1 <= A)%nat -> (sr_total A budget <= length hist)%nat ->
+  (A < sr_phase (sr_run A budget hist))%nat /\ length (sr_avail (sr_run A budget hist)) = 1%nat.
+Proof. exact sr_eventually_one_lemma. Qed.
+Print Assumptions sr_eventually_one.
+
+Example ex_sr_nonvacuous :
+  sr_total 3 12 = 14%nat /\ sr_nk 3 12 1 = 3%nat /\ sr_nk 3 12 2 = 4%nat /\ sr_nk 3 12 3 = 7%nat /\
+  sr_avail (sr_run 3 12 (repeat [1; 0; 2] 9)) = [0%nat; 2%nat] /\
+  sr_avail (sr_run 3 12 (repeat [1; 0; 2] 11)) = [2%nat].
+Proof. vm_compute. repeat split. Qed.
 
 (* ------------------------------------------------------------------ PGAAPPPolicy *)
 (* projectToProbability (repaired, 31ee3cf; local re-model of the function property C08 owns):
@@ -157,10 +296,20 @@ Print Assumptions pga_project_valid.
 
 (* every history of stepUpdateP calls (any states, any learning rate / prediction length, any
    Q-function) leaves every row of the policy matrix a probability vector in that sense *)
-Theorem pgaapp_rows_dist : forall lr pl qm A ops, (1 <= A)%nat -> Forall (fun r => length r = A) qm ->
+Theorem pgaapp_rows_dist_updates : forall lr pl qm A ops, (1 <= A)%nat -> Forall (fun r => length r = A) qm ->
   length (pga_run lr pl qm A ops) = length qm /\
   Forall (fun r => length r = A /\ is_dist_tol epsS r) (pga_run lr pl qm A ops).
 Proof. exact pgaapp_rows_dist_lemma. Qed.
+Print Assumptions pgaapp_rows_dist_updates.
+
+(* the same over histories that interleave stepUpdateP with setLearningRate / setPredictionLength
+   (any values: negative ones throw and change nothing); the parameters stay >= 0 *)
+Theorem pgaapp_rows_dist : forall lr pl qm A ops, (1 <= A)%nat -> 0 <= lr -> 0 <= pl ->
+  Forall (fun r => length r = A) qm ->
+  0 <= ps_lr (pga_exec lr pl qm A ops) /\ 0 <= ps_pl (pga_exec lr pl qm A ops) /\
+  length (ps_rows (pga_exec lr pl qm A ops)) = length qm /\
+  Forall (fun r => length r = A /\ is_dist_tol epsS r) (ps_rows (pga_exec lr pl qm A ops)).
+Proof. exact pgaapp_rows_dist_setters_lemma. Qed.
 Print Assumptions pgaapp_rows_dist.
 
 (* reaches a vertex of the simplex after one update, then keeps projecting negative entries away *)
@@ -184,6 +333,12 @@ Example ex_greedy_nonvacuous :
   separatedb [-3; 5; 5; 1#2] = true /\ separatedb (shift (-1000) [-3; 5; 5; 1#2]) = true /\
   greedy_tieset [-3; 5; 5; 1#2] = [1%nat; 2%nat] /\ greedy_sample [-3; 5; 5; 1#2] 1 = 2%nat.
 Proof. vm_compute. repeat split. Qed.
+
+Example ex_lrp_setters_nonvacuous :
+  Forall (lrp_op_ok 3) [LUpd 0 true; LSetB (3#10); LUpd 2 false; LSetA (1#2); LUpd 1 true] /\
+  is_distb (lrp_pol (lrp_exec 3 (1#10) 0 [LUpd 0 true; LSetB (3#10); LUpd 2 false; LSetA (1#2); LUpd 1 true])) = true /\
+  Qeq_bool (lrp_getB (lrp_exec 3 (1#10) 0 [LUpd 0 true; LSetB (3#10); LUpd 2 false])) (3#10) = true.
+Proof. split; [repeat constructor; cbn; try lra; try lia; intros; discriminate| split; vm_compute; reflexivity]. Qed.
 
 Example ex_lrp_nonvacuous :
   Forall (fun op => (fst op < 3)%nat) [(0%nat, true); (2%nat, false); (1%nat, true)] /\
